@@ -5,8 +5,8 @@
    two output bits in the same byte, and one directly addressed terminal (FPRD + FPWR, one
    byte each).  The master picks any frame of the configuration's layout that Send admits
    (deadlock freedom = the demands of Send can always be met, e.g. two bits of one byte), the
-   environment returns any data and any counter from WkcVals (below and above 256), the devices
-   set any subset of their outputs.
+   environment returns any data and any counter from WkcVals (below and above 256) or does not
+   answer at all (Lose), the devices set any subset of their outputs.
 
    With Honest = TRUE the environment is an honest segment instead: the counter that comes
    back is the counter sent plus the number p of terminals that processed the datagram.  Then
@@ -86,7 +86,10 @@ MCUpdate == /\ \E S \in SetSeqs(cfg, OutVars(cfg)), e0 \in 0 .. 1 :
                          errs |-> IF k = 0 THEN e0 ELSE errs + WrongCount(cfg, resp)])
             /\ UNCHANGED absent
 
-MCNext == MCSend \/ MCReceive \/ MCUpdate
+MCLose == /\ \E e \in (IF k = 0 THEN 0 .. 1 ELSE {errs}) : Lose(e)
+          /\ UNCHANGED absent
+
+MCNext == MCSend \/ MCReceive \/ MCLose \/ MCUpdate
 MCSpec == MCInit /\ [][MCNext]_<<svars, absent>>
 
 Bound == k <= MaxCycles
